@@ -96,6 +96,16 @@ def main():
                 # bitwise (NaN-safe): the values held by y must be the ones it held when it was returned
                 r["result_stable"] = bool(torch.equal(y.contiguous().view(torch.uint8), snap.contiguous().view(torch.uint8)))
                 del y2
+                # the same float activation OBJECT fed again after an in-place update (a reused buffer) must give what a fresh
+                # tensor holding the same values gives
+                if not isinstance(qx, QTensor) and qx.is_contiguous():
+                    with torch.no_grad():
+                        xb = qx.clone()
+                        Fn.linear(xb, qw, b)
+                        xb.mul_(0.5).add_(0.125)
+                        y_again = Fn.linear(xb, qw, b)
+                        y_fresh = Fn.linear(xb.clone(), qw, b)
+                    r["reused_input_ok"] = bool(torch.equal(y_again.contiguous().view(torch.uint8), y_fresh.contiguous().view(torch.uint8)))
                 r.update(stats(y, ref, absref))
                 r["K"] = inf
                 # all internal routes on the same 8-bit operands must agree with the reference as well
